@@ -1,9 +1,11 @@
 package crdt
 
 import (
+	"bytes"
 	"encoding/json"
 	"fmt"
 	"sort"
+	"strconv"
 
 	"github.com/orda-io/orda/client/pkg/model"
 )
@@ -39,26 +41,52 @@ func (a TS) Model() *model.Timestamp { return model.NewTimestamp(a.E, a.L, a.C, 
 // NilCUID is the client id of the oldest timestamp (list head / document root).
 const NilCUID = "0000000000000000"
 
+func numU64(v interface{}) (uint64, bool) {
+	switch x := v.(type) {
+	case float64:
+		return uint64(x), true
+	case json.Number:
+		if u, err := strconv.ParseUint(string(x), 10, 64); err == nil {
+			return u, true
+		}
+		if f, err := x.Float64(); err == nil {
+			return uint64(f), true
+		}
+	}
+	return 0, false
+}
+
+func numI64(v interface{}) (int64, bool) {
+	switch x := v.(type) {
+	case float64:
+		return int64(x), true
+	case json.Number:
+		if i, err := x.Int64(); err == nil {
+			return i, true
+		}
+		if f, err := x.Float64(); err == nil {
+			return int64(f), true
+		}
+	}
+	return 0, false
+}
+
 func tsFromJSON(v interface{}) (TS, bool) {
 	m, ok := v.(map[string]interface{})
 	if !ok {
 		return TS{}, false
 	}
 	var t TS
-	if x, ok := m["e"].(float64); ok {
+	if x, ok := numU64(m["e"]); ok {
 		t.E = uint32(x)
 	}
-	switch x := m["l"].(type) {
-	case float64:
-		t.L = uint64(x)
-	case json.Number:
-		u, _ := x.Int64()
-		t.L = uint64(u)
+	if x, ok := numU64(m["l"]); ok {
+		t.L = x
 	}
 	if x, ok := m["c"].(string); ok {
 		t.C = x
 	}
-	if x, ok := m["d"].(float64); ok {
+	if x, ok := numU64(m["d"]); ok {
 		t.D = uint32(x)
 	}
 	return t, true
@@ -91,7 +119,9 @@ func Decode(op *model.Operation) (DOp, error) {
 		return d, nil
 	}
 	var body map[string]interface{}
-	if err := json.Unmarshal(op.Body, &body); err != nil {
+	dec := json.NewDecoder(bytes.NewReader(op.Body))
+	dec.UseNumber() // clocks above 2^53 must survive decoding exactly
+	if err := dec.Decode(&body); err != nil {
 		return d, fmt.Errorf("operation %v body is not a JSON object: %v", op.ID, err)
 	}
 	if p, ok := body["P"]; ok && p != nil {
@@ -101,13 +131,13 @@ func Decode(op *model.Operation) (DOp, error) {
 	}
 	switch op.OpType {
 	case model.TypeOfOperation_TRANSACTION:
-		if n, ok := body["NumOfOps"].(float64); ok {
-			d.N = int64(n)
+		if n, ok := numI64(body["NumOfOps"]); ok {
+			d.N = n
 		}
 		d.Tag, _ = body["Tag"].(string)
 	case model.TypeOfOperation_COUNTER_INCREASE:
-		if n, ok := body["Delta"].(float64); ok {
-			d.N = int64(n)
+		if n, ok := numI64(body["Delta"]); ok {
+			d.N = n
 		}
 	case model.TypeOfOperation_MAP_PUT:
 		d.K, _ = body["Key"].(string)
